@@ -214,448 +214,6 @@ Proof.
   repeat split; reflexivity.
 Qed.
 
-(* ------------------------------------------------------------------ refinement to the ghost machine *)
-Definition fk_src (fk : fkey) : src :=
-  match fk with FPpid | FCpuTimes => Stat | FUids => Status | FMemInfo => Statm end.
-Definition vfst (o : option val) : option nat := option_map fst o.
-
-Definition Rb sh (g : gst) : Prop :=
-  exists fc pc F P, fptr sh = Some fc /\ pptr sh = Some pc /\ fc <> pc /\
-    nth_error (heap sh) fc = Some F /\ nth_error (heap sh) pc = Some P /\
-    (forall s, memoized s = true -> vfst (assoc (KS s) (c_ents P)) = g_snap g s) /\
-    vfst (assoc (KF FMemInfo) (c_ents F)) = g_snap g Statm /\
-    (forall fk v, fk <> FMemInfo -> assoc (KF fk) (c_ents F) = Some v -> g_snap g (fk_src fk) = Some (fst v)).
-
-Definition Rcore sh (g : gst) : Prop := (forall s, srcs sh s = g_cur g s) /\ gone_flag sh = false.
-
-Definition R (q : sq) (g : gst) : Prop :=
-  Rcore (q_sh q) g /\
-  match g_depth g with
-  | 0 => q_stk q = [] /\ fptr (q_sh q) = None /\ pptr (q_sh q) = None
-  | S d => q_stk q = repeat Nested d ++ [Real] /\ Rb (q_sh q) g
-  end.
-
-Lemma cnt_bump cn s : cnt_list (bump cn s) = add4 (cnt_list cn) (one s).
-Proof. unfold cnt_list, bump, one, add4. destruct s; simpl; f_equal; try lia; f_equal; try lia; f_equal; try lia; f_equal; lia. Qed.
-Lemma add4_zero l : length l = 4 -> add4 l zero4 = l.
-Proof. destruct l as [|a [|b [|c [|d [|e r]]]]]; simpl; try discriminate. intros _. repeat rewrite Nat.add_0_r. reflexivity. Qed.
-Lemma cnt_len cn : length (cnt_list cn) = 4.
-Proof. reflexivity. Qed.
-
-Lemma sh_store_nth_eq sh cid k v C : nth_error (heap sh) cid = Some C ->
-  nth_error (heap (sh_store sh cid k v)) cid = Some (add_ent k v C).
-Proof. intros H. unfold sh_store. simpl. apply nth_error_upd_nth_eq; auto. Qed.
-Lemma sh_store_nth_neq sh cid k v c : cid <> c ->
-  nth_error (heap (sh_store sh cid k v)) c = nth_error (heap sh) c.
-Proof. intros H. unfold sh_store. simpl. apply nth_error_upd_nth_neq; auto. Qed.
-
-Lemma memoized_neq_statm s : memoized s = true -> src_eqb Statm s = false.
-Proof. destruct s; simpl; auto; discriminate. Qed.
-
-(* the memoized reader of source s inside a block *)
-Lemma reader_sim sh g s cn :
-  memoized s = true -> Nat.ltb 0 (g_depth g) = true -> Rcore sh g -> Rb sh g ->
-  let '(g', o, c) := spec_primary g s in
-  exists sh' cn' r, sq_reader s sh cn = (sh', cn', r) /\ ver_of r = o /\ cnt_list cn' = add4 (cnt_list cn) c /\
-    Rcore sh' g' /\ Rb sh' g' /\ g_cur g' = g_cur g /\ g_depth g' = g_depth g /\ g_dead g' = g_dead g /\ g_ok g' = g_ok g /\
-    (forall v, r = Val v -> g_snap g' s = Some (fst v)) /\ (forall s', s' <> s -> g_snap g' s' = g_snap g s').
-Proof.
-  intros Hm Hin [Hcur Hgone] Hb. pose proof Hb as (fc & pc & F & P & Hf & Hp & Hne & HF & HP & H1 & H2 & H3).
-  unfold spec_primary. rewrite Hin. unfold sq_reader. rewrite Hm.
-  rewrite (wrapper_live Proc (KS s) (sq_read s) sh cn pc P Hp HP).
-  pose proof (H1 s Hm) as Hs. destruct (assoc (KS s) (c_ents P)) as [v|] eqn:Ea; simpl in Hs; rewrite <- Hs.
-  - exists sh, cn, (Val v). rewrite add4_zero by apply cnt_len. repeat split; auto. intros v0 E; inversion E; subst; auto.
-  - unfold sq_read, read_src. rewrite Hcur. destruct (g_cur g s) as [x| |] eqn:Ec.
-    + rewrite (setitem_store _ _ _ _ _ HP).
-      exists (sh_store sh pc (KS s) (x, clock sh)), (bump cn s), (Val (x, clock sh)).
-      split; [reflexivity|]. split; [reflexivity|]. split; [apply cnt_bump|].
-      split; [split; auto|]. split.
-      * exists fc, pc, F, (add_ent (KS s) (x, clock sh) P).
-        split; [exact Hf|]. split; [exact Hp|]. split; auto.
-        split; [rewrite sh_store_nth_neq; auto|]. split; [apply sh_store_nth_eq; auto|].
-        split; [|split].
-        -- intros s' Hm'. simpl. destruct (src_eqb s' s) eqn:E; simpl; auto.
-        -- unfold snap_set; cbn [g_snap]. rewrite (memoized_neq_statm _ Hm). exact H2.
-        -- intros fk v Hfk Hv. unfold snap_set; cbn [g_snap]. destruct (src_eqb (fk_src fk) s) eqn:E; [|apply H3; auto].
-           apply src_eqb_eq in E. pose proof (H3 _ _ Hfk Hv) as X. rewrite E in X. congruence.
-      * repeat split; simpl; auto.
-        -- intros v E; inversion E; subst. rewrite src_eqb_refl. reflexivity.
-        -- intros s' Hs'. destruct (src_eqb s' s) eqn:E; auto. apply src_eqb_eq in E. congruence.
-    + exists sh, (bump cn s), (Exc AccessDenied). repeat split; auto; try apply cnt_bump. intros v E; discriminate.
-    + exists sh, (bump cn s), (Exc NoSuchProcess). repeat split; auto; try apply cnt_bump. intros v E; discriminate.
-Qed.
-
-(* storing the answer under the front-level key afterwards *)
-Lemma front_store_Rb sh g fk v :
-  Rb sh g -> g_snap g (fk_src fk) = Some (fst v) ->
-  forall fc F, fptr sh = Some fc -> nth_error (heap sh) fc = Some F -> Rb (sh_store sh fc (KF fk) v) g.
-Proof.
-  intros (fc & pc & F & P & Hf & Hp & Hne & HF & HP & H1 & H2 & H3) Hs fc' F' Hf' HF'.
-  rewrite Hf in Hf'. inversion Hf'; subst fc'. rewrite HF in HF'. inversion HF'; subst F'.
-  exists fc, pc, (add_ent (KF fk) v F), P. split; [exact Hf|]. split; [exact Hp|]. split; auto.
-  split; [apply sh_store_nth_eq; auto|]. split; [rewrite sh_store_nth_neq; auto|]. split; [exact H1|]. split.
-  - simpl. destruct fk; simpl; auto.
-  - intros fk' v' Hfk Hv. simpl in Hv. destruct (fkey_eqb fk' fk) eqn:E.
-    + apply fkey_eqb_eq in E. subst. inversion Hv; subst. exact Hs.
-    + apply H3; auto.
-Qed.
-
-Lemma Rcore_store sh g cid k v : Rcore sh g -> Rcore (sh_store sh cid k v) g.
-Proof. intros [A B]. split; auto. Qed.
-
-Definition in_domain (g : gst) (m : meth) : Prop :=
-  m = Mppid -> exists x, g_cur g Stat = SAvail x.
-
-Lemma ident_ok sh g m : Rcore sh g -> in_domain g m ->
-  (if meth_eqb m Mppid then ident_check sh else IOk sh) = IOk sh.
-Proof.
-  intros [Hc Hg] Hd. destruct (meth_eqb m Mppid) eqn:E; auto.
-  assert (m = Mppid) by (destruct m; simpl in E; congruence). destruct (Hd H) as (x & Hx).
-  unfold ident_check. rewrite Hg, Hc, Hx. reflexivity.
-Qed.
-
-
-Definition gsame (g g' : gst) := g_cur g' = g_cur g /\ g_depth g' = g_depth g /\ g_dead g' = g_dead g /\ g_ok g' = g_ok g.
-
-Lemma add4_zero_l c : length c = 4 -> add4 zero4 c = c.
-Proof. destruct c as [|a [|b [|c0 [|d [|e r]]]]]; simpl; try discriminate. reflexivity. Qed.
-Lemma spec_primary_len g s g' o c : spec_primary g s = (g', o, c) -> length c = 4.
-Proof.
-  unfold spec_primary. destruct (if Nat.ltb 0 (g_depth g) then g_snap g s else None).
-  - intros E; inversion E; reflexivity.
-  - destruct (g_cur g s); intros E; inversion E; reflexivity.
-Qed.
-
-(* the platform method body inside a block, for a memoized source *)
-Lemma body_sim sh g m :
-  memoized (m_src m) = true -> Nat.ltb 0 (g_depth g) = true -> Rcore sh g -> Rb sh g -> in_domain g m ->
-  let '(g', x) := spec_call g m in
-  exists sh' cn r, sq_body m sh (fun _ => 0) = (sh', cn, r) /\ proj_res (ver_of r, cnt_list cn) = x /\
-    Rcore sh' g' /\ Rb sh' g' /\ gsame g g' /\ (forall v, r = Val v -> g_snap g' (m_src m) = Some (fst v)).
-Proof.
-  intros Hm Hin Hcore Hb Hdom. pose proof (reader_sim sh g (m_src m) (fun _ => 0) Hm Hin Hcore Hb) as Hr.
-  unfold spec_call. destruct (spec_primary g (m_src m)) as [[g' o] c] eqn:Ep.
-  pose proof (spec_primary_len _ _ _ _ _ Ep) as Hlen.
-  destruct Hr as (sh' & cn' & r & Er & Eo & Ec & Rc' & Rb' & G1 & G2 & G3 & G4 & Hv & Hoth).
-  change (cnt_list (fun _ : src => 0)) with zero4 in Ec. rewrite (add4_zero_l _ Hlen) in Ec.
-  unfold sq_body. rewrite (ident_ok _ _ _ Hcore Hdom), Er.
-  assert (Hgs : gsame g g') by (repeat split; auto).
-  destruct (meth_eqb m Mmemory_full) eqn:Ef.
-  - destruct r as [v|e|]; simpl in Eo; subst o.
-    + pose proof Rc' as [Hcur' Hg']. unfold read_src. rewrite Hcur', G1.
-      destruct (g_cur g Statm) as [y| |] eqn:Est; simpl.
-      * exists sh', (bump cn' Statm), (Val v). split; [reflexivity|]. split.
-        -- unfold proj_res; simpl. rewrite cnt_bump, Ec. reflexivity.
-        -- split; [exact Rc'|split; [exact Rb'|split; [exact Hgs|exact Hv]]].
-      * exists sh', (bump cn' Statm), (Exc AccessDenied). split; [reflexivity|]. split; [reflexivity|].
-        split; [exact Rc'|split; [exact Rb'|split; [exact Hgs|intros v0 E; discriminate]]].
-      * exists sh', (bump cn' Statm), (Exc NoSuchProcess). split; [reflexivity|]. split; [reflexivity|].
-        split; [exact Rc'|split; [exact Rb'|split; [exact Hgs|intros v0 E; discriminate]]].
-    + exists sh', cn', (Exc e). split; [reflexivity|]. split; [reflexivity|].
-      split; [exact Rc'|split; [exact Rb'|split; [exact Hgs|intros v0 E; discriminate]]].
-    + exists sh', cn', OutOfModel. split; [reflexivity|]. split; [reflexivity|].
-      split; [exact Rc'|split; [exact Rb'|split; [exact Hgs|intros v0 E; discriminate]]].
-  - destruct r as [v|e|]; simpl in Eo; subst o; simpl.
-    + exists sh', cn', (Val v). split; [reflexivity|]. split; [unfold proj_res; simpl; rewrite Ec; reflexivity|].
-      split; [exact Rc'|split; [exact Rb'|split; [exact Hgs|exact Hv]]].
-    + exists sh', cn', (Exc e). split; [reflexivity|]. split; [reflexivity|].
-      split; [exact Rc'|split; [exact Rb'|split; [exact Hgs|exact Hv]]].
-    + exists sh', cn', OutOfModel. split; [reflexivity|]. split; [reflexivity|].
-      split; [exact Rc'|split; [exact Rb'|split; [exact Hgs|exact Hv]]].
-Qed.
-
-Lemma front_of_no_full m fk : m_front m = Some fk -> meth_eqb m Mmemory_full = false /\ fk_src fk = m_src m.
-Proof. destruct m; simpl; intros E; inversion E; auto. Qed.
-Lemma no_front_memoized m : m_front m = None -> memoized (m_src m) = true.
-Proof. destruct m; simpl; intros E; try discriminate; reflexivity. Qed.
-Lemma front_not_memoized m fk : m_front m = Some fk -> memoized (m_src m) = false -> m = Mmemory_info /\ fk = FMemInfo.
-Proof. destruct m; simpl; intros E1 E2; inversion E1; try discriminate; auto. Qed.
-
-(* one method call: the sequential reading answers what the ghost machine answers *)
-Lemma call_sim q g m :
-  R q g -> in_domain g m ->
-  let '(g', x) := spec_call g m in
-  exists sh' cn r, sq_call m (q_sh q) = (sh', cn, r) /\ proj_res (ver_of r, cnt_list cn) = x /\
-    R (mkSq sh' (q_stk q) (q_res q)) g' /\ gsame g g'.
-Proof.
-  intros [Hcore HR] Hdom. pose proof Hcore as [Hcur Hgone].
-  pose proof (ident_ok _ _ _ Hcore Hdom) as Hid.
-  destruct (g_depth g) as [|d] eqn:Ed.
-  - (* outside any block: no dict is live *)
-    destruct HR as (Hs & Hf & Hp). unfold spec_call, spec_primary. rewrite Ed. simpl.
-    assert (Hcall : sq_call m (q_sh q) = sq_body m (q_sh q) (fun _ => 0)).
-    { unfold sq_call. destruct (m_front m); auto. rewrite wrapper_dead; auto. }
-    assert (HRq : R (mkSq (q_sh q) (q_stk q) (q_res q)) g).
-    { split; auto. rewrite Ed. auto. }
-    assert (Hgs : gsame g g) by (repeat split).
-    rewrite Hcall. unfold sq_body. rewrite Hid. unfold sq_reader.
-    destruct (memoized (m_src m)) eqn:Em; [rewrite wrapper_dead by exact Hp|]; unfold sq_read, read_src; rewrite Hcur.
-    + destruct (meth_eqb m Mmemory_full) eqn:Ef.
-      * assert (m = Mmemory_full) by (destruct m; simpl in Ef; congruence). subst m. simpl.
-        destruct (g_cur g Smaps) as [x| |]; simpl.
-        -- rewrite Hcur. destruct (g_cur g Statm) as [y| |]; simpl;
-             (eexists; eexists; eexists; split; [reflexivity|]; split; [reflexivity|]; split; [exact HRq|exact Hgs]).
-        -- eexists; eexists; eexists; split; [reflexivity|]; split; [reflexivity|]; split; [exact HRq|exact Hgs].
-        -- eexists; eexists; eexists; split; [reflexivity|]; split; [reflexivity|]; split; [exact HRq|exact Hgs].
-      * destruct (g_cur g (m_src m)) as [x| |]; simpl;
-          (eexists; eexists; eexists; split; [reflexivity|]; split; [|split; [exact HRq|exact Hgs]]);
-          unfold proj_res; simpl; rewrite ?cnt_bump; reflexivity.
-    + assert (Ef : meth_eqb m Mmemory_full = false) by (destruct m; auto; discriminate). rewrite Ef.
-      destruct (g_cur g (m_src m)) as [x| |]; simpl;
-        (eexists; eexists; eexists; split; [reflexivity|]; split; [|split; [exact HRq|exact Hgs]]);
-        unfold proj_res; simpl; rewrite ?cnt_bump; reflexivity.
-  - (* inside a block *)
-    destruct HR as (Hstk & Hb). pose proof Hb as (fc & pc & F & P & Hf & Hp & Hne & HF & HP & H1 & H2 & H3).
-    assert (Hin : Nat.ltb 0 (g_depth g) = true) by (rewrite Ed; reflexivity).
-    assert (HRmk : forall sh' g', gsame g g' -> Rcore sh' g' -> Rb sh' g' -> R (mkSq sh' (q_stk q) (q_res q)) g').
-    { intros sh' g' (_ & G2 & _) A B. split; auto. rewrite G2, Ed. auto. }
-    destruct (m_front m) as [fk|] eqn:Efk.
-    + destruct (front_of_no_full _ _ Efk) as [Hnf Hsrc].
-      unfold sq_call. rewrite Efk.
-      rewrite (wrapper_live Front (KF fk) (sq_body m) (q_sh q) (fun _ => 0) fc F Hf HF).
-      destruct (assoc (KF fk) (c_ents F)) as [v|] eqn:Ea.
-      * (* held by the front-level dict *)
-        assert (Hsnap : g_snap g (m_src m) = Some (fst v)).
-        { destruct (fkey_eqb fk FMemInfo) eqn:E.
-          - apply fkey_eqb_eq in E. subst fk. rewrite Ea in H2. simpl in H2. rewrite <- Hsrc. simpl. auto.
-          - rewrite <- Hsrc. apply H3; auto. intros X; subst; discriminate. }
-        unfold spec_call, spec_primary. rewrite Hin, Hsnap, Hnf.
-        exists (q_sh q), (fun _ => 0), (Val v). split; [reflexivity|]. split; [reflexivity|].
-        split; [apply HRmk; auto; repeat split|repeat split].
-      * destruct (memoized (m_src m)) eqn:Em.
-        -- (* run the body, store the answer under the front-level key *)
-           pose proof (body_sim (q_sh q) g m Em Hin Hcore Hb Hdom) as Hbody.
-           destruct (spec_call g m) as [g' x].
-           destruct Hbody as (sh' & cn & r & Eb & Hx & Rc' & Rb' & Gs & Hv). rewrite Eb.
-           destruct r as [v|e|].
-           ++ pose proof Rb' as (fc' & pc' & F' & P' & Hf' & Hp' & Hne' & HF' & HP' & _).
-              destruct (sq_body_ptrs _ _ _ _ _ _ Eb) as [X1 _]. rewrite Hf, Hf' in X1. inversion X1; subst fc'.
-              rewrite (setitem_store _ _ _ _ _ HF').
-              exists (sh_store sh' fc (KF fk) v), cn, (Val v). split; [reflexivity|]. split; [exact Hx|].
-              split; [|exact Gs]. apply HRmk; [exact Gs|apply Rcore_store; exact Rc'|].
-              eapply front_store_Rb; eauto. rewrite Hsrc. apply Hv. reflexivity.
-           ++ exists sh', cn, (Exc e). split; [reflexivity|]. split; [exact Hx|]. split; auto.
-           ++ exists sh', cn, OutOfModel. split; [reflexivity|]. split; [exact Hx|]. split; auto.
-        -- (* memory_info: statm is read directly *)
-           destruct (front_not_memoized _ _ Efk Em) as [-> ->].
-           unfold spec_call, spec_primary. rewrite Hin. simpl m_src. rewrite <- H2, Ea. simpl.
-           unfold sq_body. simpl. unfold sq_read, read_src. rewrite Hcur.
-           destruct (g_cur g Statm) as [x| |] eqn:Ec; simpl.
-           ++ rewrite (setitem_store _ _ _ _ _ HF).
-              exists (sh_store (q_sh q) fc (KF FMemInfo) (x, clock (q_sh q))), (bump (fun _ => 0) Statm), (Val (x, clock (q_sh q))).
-              split; [reflexivity|]. split; [reflexivity|]. split; [|repeat split].
-              apply HRmk; [repeat split|apply Rcore_store; split; auto|].
-              exists fc, pc, (add_ent (KF FMemInfo) (x, clock (q_sh q)) F), P.
-              split; [exact Hf|]. split; [exact Hp|]. split; auto.
-              split; [apply sh_store_nth_eq; auto|]. split; [rewrite sh_store_nth_neq; auto|].
-              split; [|split].
-              ** intros s Hms. unfold snap_set; cbn [g_snap]. destruct (src_eqb s Statm) eqn:E; [|apply H1; auto].
-                 apply src_eqb_eq in E. subst. discriminate.
-              ** reflexivity.
-              ** intros fk v Hfk Hv. unfold snap_set; cbn [g_snap]. simpl in Hv.
-                 destruct (fkey_eqb fk FMemInfo) eqn:E; [apply fkey_eqb_eq in E; congruence|].
-                 assert (src_eqb (fk_src fk) Statm = false) by (destruct fk; simpl; auto; congruence).
-                 rewrite H. apply H3; auto.
-           ++ exists (q_sh q), (bump (fun _ => 0) Statm), (Exc AccessDenied). split; [reflexivity|]. split; [reflexivity|].
-              split; [apply HRmk; auto; repeat split|repeat split].
-           ++ exists (q_sh q), (bump (fun _ => 0) Statm), (Exc NoSuchProcess). split; [reflexivity|]. split; [reflexivity|].
-              split; [apply HRmk; auto; repeat split|repeat split].
-    + (* no front-level wrapper *)
-      pose proof (body_sim (q_sh q) g m (no_front_memoized _ Efk) Hin Hcore Hb Hdom) as Hbody.
-      destruct (spec_call g m) as [g' x].
-      destruct Hbody as (sh' & cn & r & Eb & Hx & Rc' & Rb' & Gs & Hv).
-      unfold sq_call. rewrite Efk. exists sh', cn, r. split; auto.
-Qed.
-
-(* ------------------------------------------------------------------ enter / exit / raise / env *)
-Lemma R_ext q g g' : g_cur g' = g_cur g -> g_depth g' = g_depth g -> g_snap g' = g_snap g -> R q g -> R q g'.
-Proof.
-  intros E1 E2 E3 [[A B] C]. split; [split; auto; intros s; rewrite E1; auto|].
-  rewrite E2. destruct (g_depth g); auto. destruct C as [C1 C2]. split; auto.
-  destruct C2 as (fc & pc & F & P & X). exists fc, pc, F, P. rewrite E3. exact X.
-Qed.
-
-Lemma nth_error_snoc_eq {A} (l : list A) x : nth_error (l ++ [x]) (length l) = Some x.
-Proof. rewrite nth_error_app2 by lia. rewrite Nat.sub_diag. reflexivity. Qed.
-Lemma nth_error_snoc_keep {A} (l : list A) x i y : nth_error l i = Some y -> nth_error (l ++ [x]) i = Some y.
-Proof. intros H. rewrite nth_error_app1; auto. apply nth_error_Some. congruence. Qed.
-
-Lemma activate_all_Rb sh g : g_snap g = no_snap -> Rb (activate_all sh) g.
-Proof.
-  intros Hs. unfold activate_all.
-  set (a1 := activate Front sh). set (a2 := activate Front a1). set (a3 := activate Front a2).
-  set (a4 := activate Front a3). set (a5 := activate Proc a4). set (a6 := activate Proc a5). set (a7 := activate Proc a6).
-  assert (H4 : nth_error (heap a4) (length (heap a3)) = Some (mkCache (clock a3) [])).
-  { unfold a4. rewrite activate_heap. apply nth_error_snoc_eq. }
-  assert (H7 : nth_error (heap a7) (length (heap a6)) = Some (mkCache (clock a6) [])).
-  { unfold a7. rewrite activate_heap. apply nth_error_snoc_eq. }
-  assert (H4' : nth_error (heap a7) (length (heap a3)) = Some (mkCache (clock a3) [])).
-  { unfold a7. rewrite activate_heap. apply nth_error_snoc_keep.
-    unfold a6. rewrite activate_heap. apply nth_error_snoc_keep.
-    unfold a5. rewrite activate_heap. apply nth_error_snoc_keep. exact H4. }
-  exists (length (heap a3)), (length (heap a6)), (mkCache (clock a3) []), (mkCache (clock a6) []).
-  split; [reflexivity|]. split; [reflexivity|]. split.
-  - unfold a6, a5, a4. rewrite !activate_heap, !app_length. simpl. lia.
-  - split; [exact H4'|]. split; [exact H7|]. rewrite Hs. repeat split; simpl; auto. intros fk v _ X; discriminate.
-Qed.
-
-Lemma activate_all_core sh : srcs (activate_all sh) = srcs sh /\ gone_flag (activate_all sh) = gone_flag sh.
-Proof. split; reflexivity. Qed.
-Lemma deactivate1_core l sh : srcs (deactivate1 l sh) = srcs sh /\ gone_flag (deactivate1 l sh) = gone_flag sh.
-Proof. unfold deactivate1, deactivate, py_delcache. destruct (ptr l sh); simpl; destruct l; split; reflexivity. Qed.
-Lemma deactivate_all_core sh : srcs (deactivate_all sh) = srcs sh /\ gone_flag (deactivate_all sh) = gone_flag sh.
-Proof.
-  unfold deactivate_all. repeat match goal with |- context [deactivate1 ?l ?x] =>
-    let H := fresh in destruct (deactivate1_core l x) as [H ?]; rewrite H; clear H end.
-  split; auto.
-  repeat match goal with |- context [gone_flag (deactivate1 ?l ?x)] =>
-    let H := fresh in destruct (deactivate1_core l x) as [_ H]; rewrite H; clear H end. reflexivity.
-Qed.
-
-Lemma Rb_core sh sh' g : same_core sh sh' -> Rb sh g -> Rb sh' g.
-Proof.
-  intros (E1 & E2 & E3 & _) (fc & pc & F & P & X). exists fc, pc, F, P. rewrite E1, E2, E3. exact X.
-Qed.
-
-Lemma exit_sim q g : R q g -> R (sq_exit q) (fst (spec_step g OExit)).
-Proof.
-  intros [[Hcur Hg] HR]. unfold sq_exit. simpl. destruct (g_depth g) as [|[|d]] eqn:Ed.
-  - destruct HR as (Hs & Hf & Hp). rewrite Hs. split; [split; auto|]. simpl. rewrite Ed. auto.
-  - destruct HR as (Hs & Hb). simpl in Hs. rewrite Hs.
-    destruct (deactivate_all_core (q_sh q)) as [X1 X2]. destruct (deactivate_all_ptrs (q_sh q)) as [Y1 Y2].
-    split.
-    + split; [intros s; exact (eq_trans (f_equal (fun f => f s) X1) (Hcur s))|exact (eq_trans X2 Hg)].
-    + simpl. split; [reflexivity|]. split; [exact Y1|exact Y2].
-  - destruct HR as (Hs & Hb). simpl in Hs. rewrite Hs. split; simpl; [split; auto|].
-    split; auto.
-Qed.
-
-Lemma unwind_sim : forall n q g, R q g -> g_depth g = n ->
-  exists g', R (sq_unwind n q) g' /\ g_depth g' = 0 /\ g_cur g' = g_cur g.
-Proof.
-  induction n as [|n IH]; intros q g HR Hd; simpl.
-  - exists g. auto.
-  - pose proof (exit_sim _ _ HR) as H. simpl in H. rewrite Hd in H.
-    destruct n as [|n'].
-    + destruct (IH _ _ H eq_refl) as (g' & X1 & X2 & X3). exists g'. auto.
-    + destruct (IH _ _ H eq_refl) as (g' & X1 & X2 & X3). exists g'. auto.
-Qed.
-
-Lemma R_len q g : R q g -> length (q_stk q) = g_depth g.
-Proof.
-  intros [_ H]. destruct (g_depth g) as [|d].
-  - destruct H as (-> & _). reflexivity.
-  - destruct H as (-> & _). rewrite app_length, repeat_length. simpl. lia.
-Qed.
-
-Lemma exit_res q : q_res (sq_exit q) = q_res q.
-Proof. unfold sq_exit. destruct (q_stk q) as [|[|] s]; reflexivity. Qed.
-Lemma unwind_res : forall n q, q_res (sq_unwind n q) = q_res q.
-Proof. induction n as [|n IH]; intros q; simpl; auto. rewrite IH. apply exit_res. Qed.
-
-Definition step_dom (g : gst) (o : op) : Prop :=
-  match o with OCall (CM m) => in_domain g m | _ => True end.
-
-Lemma step_sim q g o :
-  R q g -> step_dom g o ->
-  let (g', x) := spec_step g o in
-  R (sq_step q o) g' /\
-  match x with
-  | Some y => exists r, q_res (sq_step q o) = r :: q_res q /\ proj_res r = y
-  | None => q_res (sq_step q o) = q_res q
-  end.
-Proof.
-  intros HR Hdom. destruct o as [| | |c|e].
-  - (* enter *) simpl. split; [|unfold sq_enter; destruct (fptr (acquire0 (q_sh q))); reflexivity].
-    destruct HR as [[Hcur Hg] HR]. unfold sq_enter.
-    change (fptr (acquire0 (q_sh q))) with (fptr (q_sh q)).
-    destruct (g_depth g) as [|d] eqn:Ed.
-    + destruct HR as (Hs & Hf & Hp). rewrite Hf. split; simpl.
-      * split; auto.
-      * rewrite Hs. split; [reflexivity|]. apply activate_all_Rb. reflexivity.
-    + destruct HR as (Hs & Hb). pose proof Hb as (fc & _ & _ & _ & Hf & _). rewrite Hf. split; simpl.
-      * split; auto.
-      * rewrite Hs. split; [reflexivity|]. destruct Hb as (fc' & pc & F & P & X). exists fc', pc, F, P. exact X.
-  - (* exit *) pose proof (exit_sim _ _ HR) as H. simpl in *.
-    destruct (g_depth g) as [|[|d]]; (split; [exact H|]); unfold sq_exit; destruct (q_stk q) as [|[|] s]; reflexivity.
-  - (* raise *) simpl. split.
-    + destruct (unwind_sim _ _ _ HR (eq_sym (R_len _ _ HR))) as (g' & X1 & X2 & X3).
-      destruct X1 as [[A B] C]. rewrite X2 in C. split; [split; auto; intros s; rewrite A, X3; reflexivity|]. simpl. exact C.
-    + apply unwind_res.
-  - (* call *) destruct c as [m| |o].
-    + simpl in Hdom. pose proof (call_sim q g m HR Hdom) as H. simpl.
-      destruct (spec_call g m) as [g' x]. destruct H as (sh' & cn & r & Ec & Hx & HR' & Gs). rewrite Ec. simpl.
-      split; [|eexists; split; [reflexivity|exact Hx]].
-      eapply R_ext; [| | |exact HR']; reflexivity.
-    + simpl. split; [exact HR|]. eexists; split; reflexivity.
-    + simpl. split; [exact HR|]. eexists; split; [reflexivity|]. unfold proj_res. simpl. destruct o; reflexivity.
-  - (* env *) destruct HR as [[Hcur Hg] HR]. destruct e as [s st|]; simpl; (split; [|reflexivity]).
-    + split; [split; auto; intros x; simpl; rewrite Hcur; reflexivity|]. simpl.
-      destruct (g_depth g); auto.
-    + split; [split; auto|]. simpl.
-      destruct (g_depth g); auto.
-Qed.
-
-Lemma step_ok_mono g o : g_ok (fst (spec_step g o)) = true -> g_ok g = true /\ step_dom g o.
-Proof.
-  destruct o as [| | |c|e]; simpl; auto.
-  - destruct (g_depth g) as [|[|d]]; simpl; auto.
-  - destruct c as [m| |o]; simpl; auto. destruct (spec_call g m) as [g' r]. simpl.
-    intros H. apply andb_prop in H. destruct H as [H1 H2]. split; auto.
-    intros ->. simpl in H2. destruct (g_cur g Stat); try discriminate. eauto.
-  - destruct e as [s st|]; simpl; auto. intros H. apply andb_prop in H. destruct H as [H _].
-    apply andb_prop in H. destruct H; auto.
-Qed.
-
-Lemma go_ok_mono : forall h g acc gf rs, spec_go g h acc = (gf, rs) -> g_ok gf = true -> g_ok g = true.
-Proof.
-  induction h as [|o r IH]; intros g acc gf rs H Hok; simpl in H.
-  - inversion H; subst; auto.
-  - destruct (spec_step g o) as [g' x] eqn:E. apply IH in H; auto.
-    assert (g' = fst (spec_step g o)) by (rewrite E; reflexivity). subst g'. apply step_ok_mono in H. tauto.
-Qed.
-
-Lemma go_sim : forall h q g acc gf rs,
-  R q g -> map proj_res (rev (q_res q)) = rev acc ->
-  spec_go g h acc = (gf, rs) -> g_ok gf = true ->
-  map proj_res (rev (q_res (sq_run q h))) = rs.
-Proof.
-  induction h as [|o r IH]; intros q g acc gf rs HR Hacc H Hok; simpl in H.
-  - inversion H; subst. exact Hacc.
-  - destruct (spec_step g o) as [g' x] eqn:E. simpl.
-    pose proof (go_ok_mono _ _ _ _ _ H Hok) as Hok'.
-    assert (Hd : step_dom g o).
-    { assert (g' = fst (spec_step g o)) by (rewrite E; reflexivity). subst g'. apply step_ok_mono in Hok'. tauto. }
-    pose proof (step_sim q g o HR Hd) as Hs. rewrite E in Hs. destruct Hs as [HR' Hres].
-    eapply IH; [exact HR'| |exact H|exact Hok].
-    destruct x as [y|].
-    + destruct Hres as (r0 & Er & Ey). rewrite Er. simpl. rewrite map_app, Hacc. simpl. rewrite Ey. reflexivity.
-    + rewrite Hres. exact Hacc.
-Qed.
-
-(* Theorem 1 (with 2 and 3 folded in: the ghost machine forgets everything at the outermost exit
-   and ignores nested enters).  For every history inside the stated domain, every call of the
-   sequential reading answers what the property demands, and every successful call makes exactly
-   the reads the property allows: one per source and block, none once the block holds the source. *)
-Theorem block_first_read : forall f h rs,
-  spec_run f h = Some rs ->
-  map proj_res (rev (q_res (sq_run (sq_init f) h))) = rs.
-Proof.
-  intros f h rs H. unfold spec_run in H. destruct (spec_go (spec_init f) h []) as [gf rs'] eqn:E.
-  destruct (g_ok gf) eqn:Eok; [|discriminate]. inversion H; subst rs'.
-  eapply go_sim; [| |exact E|exact Eok].
-  - split; [split; auto|]. simpl. auto.
-  - reflexivity.
-Qed.
-
-Example block_first_read_example :
-  spec_run (fun _ => SAvail 1)
-    [OEnter; OCall (CM Mcpu_num); OEnv (ESet Stat (SAvail 2)); OCall (CM Mppid); OEnter; OCall (CM Mname); OExit;
-     OCall (CM Muids); OEnv (ESet Status SDenied); OCall (CM Mgids); ORaise; OCall (CM Mcpu_num); OCall (CM Mgids)]
-  = Some [(Val 1, Some [1;0;0;0]); (Val 1, Some [0;0;0;0]); (Val 1, Some [0;0;0;0]); (Val 1, Some [0;1;0;0]);
-          (Val 1, Some [0;0;0;0]); (Val 2, Some [1;0;0;0]); (Exc AccessDenied, None)].
-Proof. reflexivity. Qed.
-
 (* ------------------------------------------------------------------ as_dict *)
 Definition call_of (resolve : bytes -> callee) (n : bytes) : op := OCall (resolve n).
 Definition last_answer (q : sq) : outcome nat := match q_res q with (o, _) :: _ => o | [] => OutOfModel end.
